@@ -632,6 +632,24 @@ pub fn huge_entry_points(buf: &[u8], text: bool) -> Value {
     })
 }
 
+/// All six entry points on the caller's buffer itself (no private copies, nothing overwritten):
+/// for receivers that keep ONE read buffer across connections.
+pub fn inplace_entry_points(buf: &[u8]) -> Value {
+    let na = json!({"k": "na"});
+    let (v1s, v1fh, v1fa) = match std::str::from_utf8(buf) {
+        Ok(s) => (v1_str_opt(s, true, false), v1_from_str_header(s, false), v1_from_str_addresses(s)),
+        Err(_) => (na.clone(), na.clone(), na),
+    };
+    json!({
+        "v1b": v1_bytes_opt(buf, true, false),
+        "v1s": v1s,
+        "v1fh": v1fh,
+        "v1fa": v1fa,
+        "v2": v2_bytes_opt(buf, true, false),
+        "auto": auto_bytes(buf),
+    })
+}
+
 /// All six entry points on one buffer.
 pub fn all_entry_points(buf: &[u8], full: bool) -> Value {
     let na = json!({"k": "na"});
